@@ -113,6 +113,9 @@ var deepPats = []string{
 	`[a-c]+(?<=(a|b|c)*)`, `\w+(?<=(?:[a-z]\d?)+)`, `\d+(?<=(?:\d|\d\d)+)x?`, `\w(?i:(?:a|B)*)c`, `[ab]+(?<!(?:c|b)*d)`,
 	// ... and where the call is abandoned while backtracking into a single-character lazy loop of the lookbehind
 	`\w+(?<=(?:b\w*?)+)`, `\w+(?<=^(?:b\w*?|c)+)`, `[a-c]+(?<=(?:c[ab]*?)+)`, `\w+(?<=(?:b\w*?)+)!`,
+	// many captures per iteration inside an atomic group or lookahead (their backtracking frames are dropped at
+	// the exit, the captures stay): the capture stack outgrows the backtracking stack
+	`(?:(?>(a)(a)(a)(a)(a)(a)(a)(a)))*`, `^(?:(?=(a)(a)(a)(a))a)*`, `(?:(?>(a)|(b))(?=(a|b)?))*c`, `(?:(?>(a)(b)?(c)?))+$`,
 }
 
 type c13ref struct {
@@ -212,6 +215,25 @@ func genC13(seed uint64, tier string) *Scenario {
 			in = InputSpec{Pre: randABC(r, r.n(6)), Unit: randABC(r, 1+r.n(3)), Rep: 10 + r.n(200), Suf: randABC(r, r.n(4))}
 		}
 		frags = []string{"a", "b", "c", "ab", "abc", ""}
+	case (x == 4 || x == 7) && r.chance(1, 5):
+		// a train of back-references to one non-empty capture, no loop in between: whatever a reference
+		// pushes is not separated from the next one's by a capacity check
+		grp := []string{`(ab)`, `(a)`, `(?<n>ab)`, `(a|ab)`, `(b?a)`}[r.n(5)]
+		ref := `\1`
+		if grp == `(?<n>ab)` {
+			ref = `\k<n>`
+		}
+		k := 1 + r.n(24)
+		spec = ReSpec{Pat: grp + strings.Repeat(ref, k) + []string{"c", "", "$", "c?"}[r.n(4)], Opts: []int{0, 0, 0, oI, oRTL, oE}[r.n(6)]}
+		unit := "ab"
+		if grp == `(a)` {
+			unit = "a"
+		}
+		in = InputSpec{Pre: randABC(r, r.n(3)), Unit: unit, Rep: k + 1 + r.n(2), Suf: []string{"c", "", "b"}[r.n(3)]}
+		if r.chance(1, 5) {
+			in.Rep = r.n(k + 1)
+		}
+		frags = []string{"a", "b", "c", "ab", "abab", ""}
 	case x == 4 || x == 7:
 		pat, fr := packedPattern(r)
 		spec = ReSpec{Pat: pat}
@@ -238,7 +260,7 @@ func genC13(seed uint64, tier string) *Scenario {
 		frags = p.Frags
 	}
 	sc.Res = []ReSpec{spec}
-	op := Op{Kind: c13Kinds[r.n(len(c13Kinds))], Re: 0, In: in, N: -1, Repl: repls[r.n(len(repls))], TimeoutNs: -1}
+	op := Op{Kind: c13Kinds[r.n(len(c13Kinds))], Re: 0, In: in, N: -1, Repl: pickRepl(r), TimeoutNs: -1}
 	if op.Kind == OpFindStringAt {
 		op.StartAt = 0
 	}
@@ -251,7 +273,7 @@ func genC13(seed uint64, tier string) *Scenario {
 	cl := Client{Cost: 1, Ops: []Op{op}}
 	nf := 1 + r.n(3)
 	for k := 0; k < nf; k++ {
-		f := Op{Kind: c13Kinds[r.n(len(c13Kinds))], Re: 0, N: -1, Repl: repls[r.n(len(repls))], TimeoutNs: -1}
+		f := Op{Kind: c13Kinds[r.n(len(c13Kinds))], Re: 0, N: -1, Repl: pickRepl(r), TimeoutNs: -1}
 		switch r.n(3) {
 		case 0:
 			t := in.Text()
